@@ -5,6 +5,7 @@ use syn::*;
 
 pub struct TyRw<'a> {
     pub u: &'a Unit,
+    pub in_unit_ty: bool,
 }
 
 fn path_is_ident(p: &Path, s: &str) -> bool {
@@ -26,7 +27,7 @@ impl<'a> TyRw<'a> {
         if let Type::Path(tp) = t {
             if tp.qself.is_none() && tp.path.segments.len() == 1 {
                 let id = &tp.path.segments[0].ident;
-                if self.dropped(id) && self.rename(id).is_none() {
+                if self.dropped(id) {
                     return true;
                 }
             }
@@ -78,7 +79,7 @@ impl<'a> TyRw<'a> {
                         };
                         if !mentions {
                             let mut pt = pt.clone();
-                            let mut me = TyRw { u: self.u };
+                            let mut me = TyRw { u: self.u, in_unit_ty: false };
                             me.visit_type_mut(&mut pt.bounded_ty);
                             for b in pt.bounds.iter_mut() {
                                 me.clone_visit_bound(b);
@@ -97,7 +98,7 @@ impl<'a> TyRw<'a> {
     }
 
     fn clone_visit_bound(&self, b: &mut TypeParamBound) {
-        let mut me = TyRw { u: self.u };
+        let mut me = TyRw { u: self.u, in_unit_ty: false };
         me.visit_type_param_bound_mut(b);
     }
 }
@@ -171,6 +172,22 @@ impl<'a> VisitMut for TyRw<'a> {
                 }
             }
         }
+        // module-qualified type paths (`hooks::Hooks`, `std::time::Duration`): keep the type name
+        if let Type::Path(tp) = t {
+            if tp.qself.is_none() && tp.path.segments.len() > 1 {
+                let keep_from = tp
+                    .path
+                    .segments
+                    .iter()
+                    .position(|s| s.ident.to_string().chars().next().map(|c| c.is_uppercase()).unwrap_or(false))
+                    .unwrap_or(0);
+                if keep_from > 0 {
+                    let segs: Vec<PathSegment> = tp.path.segments.iter().skip(keep_from).cloned().collect();
+                    tp.path.segments = segs.into_iter().collect();
+                    tp.path.leading_colon = None;
+                }
+            }
+        }
         visit_mut::visit_type_mut(self, t);
         // rename single-ident types (after recursion)
         if let Type::Path(tp) = t {
@@ -184,7 +201,38 @@ impl<'a> VisitMut for TyRw<'a> {
         }
     }
 
+    fn visit_path_segment_mut(&mut self, seg: &mut PathSegment) {
+        let name = seg.ident.to_string();
+        let is_unit_ty = self.u.structs.iter().any(|s| s.name == name) || self.u.enums.iter().any(|s| s.name == name) || self.u.unit_types.contains(&name);
+        let saved = self.in_unit_ty;
+        self.in_unit_ty = is_unit_ty;
+        visit_mut::visit_path_segment_mut(self, seg);
+        self.in_unit_ty = saved;
+    }
+
     fn visit_path_arguments_mut(&mut self, pa: &mut PathArguments) {
+        if !self.in_unit_ty {
+            // not one of the unit's own types (Result, Option, Vec, ..): keep the arguments, rename inside
+            if let PathArguments::AngleBracketed(ab) = pa {
+                let mut args = punctuated::Punctuated::new();
+                for a in ab.args.iter() {
+                    match a {
+                        GenericArgument::Lifetime(_) => {}
+                        other => args.push(other.clone()),
+                    }
+                }
+                ab.args = args;
+                if ab.args.is_empty() {
+                    *pa = PathArguments::None;
+                    return;
+                }
+            }
+            let saved = self.in_unit_ty;
+            self.in_unit_ty = false;
+            visit_mut::visit_path_arguments_mut(self, pa);
+            self.in_unit_ty = saved;
+            return;
+        }
         if let PathArguments::AngleBracketed(ab) = pa {
             let mut args = punctuated::Punctuated::new();
             for a in ab.args.iter() {
